@@ -1933,6 +1933,10 @@ def make_builtins(I):
                 if all(isinstance(x, str) for x in items):
                     yield st, (min(items) if which == "min" else max(items))
                     return
+                if any(isinstance(x, Ref) for x in items):
+                    # e.g. max(2-d array): rows are compared with <, whose truth value is ambiguous (ValueError); lists
+                    # compare lexicographically
+                    raise Unsupported("%s() over containers / arrays" % which)
                 if any(isinstance(x, Opaque) for x in items):
                     # e.g. max(nan, 1.0) is nan but max(1.0, nan) is 1.0 in CPython (every comparison with NaN is False)
                     raise Unsupported("%s() over an uninterpreted value (nan)" % which)
